@@ -55,3 +55,8 @@ pub use fancy_regex;
 pub use once_cell;
 pub use regex;
 pub use yansi;
+
+// Verification hook: compiled only by `cargo kani` (cfg(kani)); see /verif/MANIFEST.json.
+#[cfg(kani)]
+#[path = "/verif/units/kx/rustemo/lib.rs"]
+mod verif_kani_lib;
